@@ -36,8 +36,8 @@ namespace {
             }
         } else if (o.isDictionary() || o.isStream()) {
             QPDFObjectHandle d = o.isStream() ? o.getDict() : o;
-            for (auto const& k: d.getKeys()) {
-                auto it = d.getKey(k);
+            // getDictAsMap(), not getKeys(): getKeys() tests every value for null and thereby resolves the objects the dictionary refers to
+            for (auto const& [k, it]: d.getDictAsMap()) {
                 if (it.isIndirect()) continue;
                 c6_walk(it, path + (path.empty() ? "" : ".") + "k" + hex(k.substr(1)), prefix, out, depth + 1);
             }
@@ -151,11 +151,11 @@ static Reg r_c6lazy("c6lazy", [](std::vector<std::string> const& a) -> std::stri
             auto o = pdf.getObject(static_cast<int>(id), 0);
             if (o.isNull()) continue;
             std::string prefix = std::to_string(id) + ".0";
-            c6_walk(o, "", prefix, leaves, 0);
-            if (o.isStream()) {
+            if (o.isStream()) {     // isStream() parses the object; its data is read before anything else is touched
                 auto buf = o.getRawStreamData();
                 leaves += prefix + ":t:-=" + hex(std::string(reinterpret_cast<char const*>(buf->getBuffer()), buf->getSize())) + ";";
             }
+            c6_walk(o, "", prefix, leaves, 0);
         } catch (std::exception const& e) {
             leaves += std::to_string(id) + ".0:t:-=!" + c6_clean(e.what()) + ";";
         }
